@@ -225,7 +225,7 @@ CHECKS = {
         units=[dict(name="faults", test="TestC16", checks=(240, 15000), shards=(4, 14), timeout=(300, 3000)),
                dict(name="close-window", test="TestC16Window", checks=(48, 4000), shards=(4, 8), timeout=(300, 3000)),
                dict(name="id-exhaustion", test="TestC16Exhaust", kind="enum", shards=(4, 4), timeout=(300, 3000)),
-               dict(name="inproc-blocked", test="TestC16InprocBlocked", checks=(40, 4000), shards=(4, 8), timeout=(300, 3000))]),
+               dict(name="inproc-blocked", test="TestC16InprocBlocked", checks=(80, 4000), shards=(4, 8), timeout=(300, 3000))]),
     "C17": dict(
         pkg="p_broker", level="exploration",
         technique="concurrent stress with rapid-generated publisher/subscriber configurations; every received byte strictly parsed; self-describing payloads with per-publisher sequence numbers",
